@@ -468,6 +468,8 @@ def run(ctx: Context) -> None:
     r12b(ctx)
     r12c(ctx)
     c14.r14c(ctx, "R12d")
+    # what one rule sees must not depend on which other rules are enabled: the token pass runs whatever they implement
+    c14.r14_tokenizer_calls(ctx, "R12i")
     r12e(ctx)
     from sa.raises import RaiseAnalysis
 
